@@ -58,7 +58,8 @@ def evalC15 (ins outs : List String) : Verdict :=
   match kvNat? ins "subj", kvNat? ins "new", kvNat? ins "R", kvNat? ins "forged", kvInt? ins "failH",
         kv? outs "res", (kv? outs "requests").bind natList?, (kv? outs "pending").bind natList?, kvNat? outs "storehead" with
   | some subj, some new, some R, some forged, some failH, some res, some reqs, some pend0, some storehead =>
-    let fh : Option Nat := if failH < 0 then none else some failH.toNat
+    -- failH = -2: the getter answers not-found for EVERY height; the first requested height is the one that fails
+    let fh : Option Nat := if failH == -2 then reqs.head? else if failH < 0 then none else some failH.toNat
     -- promoted intermediates adjacent to the store head were stored right away, the others wait in `pending`
     let pend := List.range' (subj + 1) (storehead - subj) ++ pend0
     let promoted := if res == "ok" then pend.dropLast else pend
